@@ -1,270 +1,179 @@
 #!/usr/bin/env python3
 """Translator of the Json area (property C15).
 
-Regenerates `lean/Nstd/Generated/JsonTables.lean` from the CURRENT sources of the repo
-(`src/Document/Json.cpp`): the escape switch of the tokenizer (`readToken`, the letter after a
-backslash -> the byte appended), the character set and the switch of `appendEscapedString`
-(byte -> escape text, the `\\u00` prefix and the hex alphabet of the default branch).  The Lean
-model (`Nstd/Json/Model.lean`) is written over these generated definitions and the table
-lemmas (`Nstd/Json/LemmasTables.lean`, `decide`) re-check on every run what the round-trip
-theorem needs of them, so a changed table in Json.cpp re-checks the theorems.
+Regenerates `lean/Nstd/Generated/JsonTables.lean` from the CURRENT sources of the repo by
+EXECUTION: the harness (harness/json.cpp, built from the current src/Document/Json.cpp) answers
+the op `tables` with
+    e<c>=<hex of Json::toString(String(1, c))>      for every byte c = 1..255
+    u<e>=<dump of Json::parse("\\<e>A")> | err       for every byte e = 1..255
+and the tables are read off these observations:
+  * `escSet`   = the bytes that toString does not write raw;
+  * `escTable` = those of them whose escape text is two bytes long (byte -> text);
+  * the others must all be written as one common prefix followed by two digits of one
+    16-letter alphabet indexed by the high and the low nibble (`escDefaultPrefix`, `hexAlphabet`);
+  * `unescTable` = the letters e for which `"\\eA"` parses to the two-byte string [b, 'A']
+    (letter -> b); a letter that gives [0x5c, e, 'A'] (backslash kept) or an error is no entry.
+The tables therefore depend on the CONTENT of the escape logic only, not on where it lives or how
+it is written (helpers, strpbrk set vs explicit predicate, order of the cases ...).  The Lean
+model (`Nstd/Json/Model.lean`) is written over the generated definitions and the table lemmas
+(`Nstd/Json/LemmasTables.lean`, `decide`) re-check on every run what the round-trip theorem
+needs of them, so a change of table content in Json.cpp re-checks the theorems.
 
-The translator refuses (returns not ok = a broken tie) whatever it cannot translate faithfully:
-a case group that is not exactly `value.append(X); ++pos.pos; break;`, a default branch other
-than "keep the backslash", a `result +=` with anything but a string literal, ...
+The translator refuses (returns not ok = a broken tie) observations it cannot interpret: a
+serialisation that is not `"` + text + `"` + LF, longer escapes without a common prefix or with
+an inconsistent digit alphabet, a crash of the probe.
 """
 import hashlib
+import os
 import re
+import subprocess
 import sys
 from pathlib import Path
 
 VERIF = Path(__file__).resolve().parents[1]
 OUT = VERIF / "lean" / "Nstd" / "Generated" / "JsonTables.lean"
+PROBE_SOURCES = ["src/Document/Json.cpp", "src/String.cpp", "src/Variant.cpp", "src/Error.cpp", "src/Memory.cpp"]
 
 
 class Untranslatable(Exception):
     pass
 
 
-_SIMPLE = {"b": 8, "f": 12, "n": 10, "r": 13, "t": 9, "a": 7, "v": 11, "\\": 92, "'": 39, '"': 34, "?": 63}
+def unhx(t):
+    return b"" if t == "-" else bytes.fromhex(t)
 
 
-def c_unescape(body):
-    """bytes of the body of a C character / string literal (without the quotes)"""
-    out = []
-    i, n = 0, len(body)
-    while i < n:
-        c = body[i]
-        if c != "\\":
-            if ord(c) > 127:
-                raise Untranslatable("non-ASCII character in a literal")
-            out.append(ord(c))
-            i += 1
-            continue
-        i += 1
-        if i >= n:
-            raise Untranslatable("dangling backslash in a literal")
-        c = body[i]
-        if c in _SIMPLE:
-            out.append(_SIMPLE[c])
-            i += 1
-        elif c == "x":
-            j = i + 1
-            while j < n and body[j] in "0123456789abcdefABCDEF":
-                j += 1
-            if j == i + 1:
-                raise Untranslatable("\\x without digits")
-            v = int(body[i + 1:j], 16)
-            if v > 255:
-                raise Untranslatable("\\x escape out of range")
-            out.append(v)
-            i = j
-        elif c in "01234567":
-            j = i
-            while j < n and j < i + 3 and body[j] in "01234567":
-                j += 1
-            out.append(int(body[i:j], 8) & 255)
-            i = j
-        else:
-            raise Untranslatable(f"unknown escape \\{c} in a literal")
-    return out
+def observe(harness):
+    """run the `tables` op of a built harness; returns (esc: c -> bytes, unesc: e -> dump-or-err)"""
+    try:
+        p = subprocess.run([str(harness)], input="tables\n", stdout=subprocess.PIPE, stderr=subprocess.PIPE,
+                           text=True, errors="replace", timeout=120)
+    except subprocess.TimeoutExpired:
+        raise Untranslatable("the table probe hangs")
+    lines = [l for l in p.stdout.splitlines() if l.startswith("tables ")]
+    if p.returncode != 0 or len(lines) != 1:
+        raise Untranslatable(f"the table probe failed (exit {p.returncode}): {p.stderr[-300:].strip()}")
+    esc, unesc = {}, {}
+    for tok in lines[0].split()[1:]:
+        m = re.fullmatch(r"([eu])(\d+)=(\S+)", tok)
+        if not m:
+            raise Untranslatable(f"unreadable probe token {tok[:40]!r}")
+        (esc if m.group(1) == "e" else unesc)[int(m.group(2))] = m.group(3)
+    if sorted(esc) != list(range(1, 256)) or sorted(unesc) != list(range(1, 256)):
+        raise Untranslatable("the table probe did not answer for every byte value")
+    return esc, unesc
 
 
-_CHAR = r"'((?:[^'\\]|\\.)+)'"
-_STR = r'"((?:[^"\\]|\\.)*)"'
-
-
-def char_lit(tok):
-    m = re.fullmatch(_CHAR, tok.strip())
-    if not m:
-        raise Untranslatable(f"not a character literal: {tok!r}")
-    b = c_unescape(m.group(1))
-    if len(b) != 1:
-        raise Untranslatable(f"multi-character literal {tok!r}")
-    return b[0]
-
-
-def strip_comments(src):
-    """remove // and /* */ comments outside string / character literals (one pass)"""
-    out = []
-    i, n, q = 0, len(src), None
-    while i < n:
-        c = src[i]
-        if q:
-            out.append(c)
-            if c == "\\" and i + 1 < n:
-                out.append(src[i + 1])
-                i += 2
-                continue
-            if c == q:
-                q = None
-            i += 1
-        elif c in "\"'":
-            q = c
-            out.append(c)
-            i += 1
-        elif src.startswith("//", i):
-            while i < n and src[i] != "\n":
-                i += 1
-        elif src.startswith("/*", i):
-            j = src.find("*/", i + 2)
-            i = n if j < 0 else j + 2
-            out.append(" ")
-        else:
-            out.append(c)
-            i += 1
-    return "".join(out)
-
-
-def function_body(src, header_rx):
-    m = re.search(header_rx, src)
-    if not m:
-        raise Untranslatable(f"function not found: {header_rx}")
-    i = src.index("{", m.end() - 1)
-    depth, j, q = 0, i, None
-    while j < len(src):
-        c = src[j]
-        if q:
-            if c == "\\":
-                j += 2
-                continue
-            if c == q:
-                q = None
-        elif c in "\"'":
-            q = c
-        elif c == "{":
-            depth += 1
-        elif c == "}":
-            depth -= 1
-            if depth == 0:
-                return src[i:j + 1]
-        j += 1
-    raise Untranslatable("unbalanced braces")
-
-
-def unescape_table(src):
-    body = function_body(src, r"bool\s+Json::Private::readToken\s*\(\s*\)\s*")
-    # the outer string loop case for the backslash, then the inner switch up to `case 'u':`
-    m = re.search(r"case\s+'\\\\'\s*:\s*\{\s*\+\+pos\.pos\s*;\s*switch\s*\(\s*\*pos\.pos\s*\)\s*\{", body)
-    if not m:
-        raise Untranslatable("escape switch of readToken not found")
-    rest = body[m.end():]
-    mu = re.search(r"case\s+'u'\s*:", rest)
-    if not mu:
-        raise Untranslatable("case 'u' of the escape switch not found")
-    region = rest[:mu.start()]
-    table = []
-    pos = 0
-    group_rx = re.compile(r"\s*((?:case\s+" + _CHAR + r"\s*:\s*)+)value\.append\(\s*(\*pos\.pos|" + _CHAR +
-                          r")\s*\)\s*;\s*\+\+pos\.pos\s*;\s*break\s*;")
-    while region[pos:].strip():
-        g = group_rx.match(region, pos)
-        if not g:
-            raise Untranslatable("escape switch of readToken: a case group is not `value.append(X); ++pos.pos; break;`: "
-                                 + region[pos:pos + 80].strip())
-        labels = [char_lit("'" + x + "'") for x in re.findall(r"case\s+" + _CHAR, g.group(1))]
-        arg = g.group(3)
-        for lab in labels:
-            table.append((lab, lab if arg.startswith("*") else char_lit(arg)))
-        pos = g.end()
-    if not table:
-        raise Untranslatable("escape switch of readToken is empty")
-    keys = [k for k, _ in table]
-    if len(set(keys)) != len(keys):
-        raise Untranslatable("duplicate case label in the escape switch")
-    # the default branch must keep the backslash and leave the next character to the string loop
-    md = re.search(r"default\s*:\s*value\.append\(\s*'\\\\'\s*\)\s*;\s*break\s*;", rest[mu.start():])
-    if not md:
-        raise Untranslatable("default branch of the escape switch is not `value.append('\\\\'); break;`")
-    return table
-
-
-def escape_tables(src):
-    body = function_body(src, r"void\s+Json::Private::appendEscapedString\s*\([^)]*\)\s*")
-    m = re.search(r"String::findOneOf\(\s*p\s*,\s*" + _STR + r"\s*\)", body)
-    if not m:
-        raise Untranslatable("findOneOf(p, \"...\") of appendEscapedString not found")
-    esc_set = c_unescape(m.group(1))
-    ms = re.search(r"switch\s*\(\s*\*e\s*\)\s*\{", body)
-    if not ms:
-        raise Untranslatable("switch(*e) of appendEscapedString not found")
-    rest = body[ms.end():]
-    table = []
-    pos = 0
-    case_rx = re.compile(r"\s*case\s+" + _CHAR + r"\s*:\s*result\s*\+=\s*" + _STR + r"\s*;\s*break\s*;")
-    while True:
-        g = case_rx.match(rest, pos)
-        if not g:
-            break
-        table.append((char_lit("'" + g.group(1) + "'"), c_unescape(g.group(2))))
-        pos = g.end()
-    keys = [k for k, _ in table]
-    if len(set(keys)) != len(keys):
-        raise Untranslatable("duplicate case label in switch(*e)")
-    tail = rest[pos:]
-    hexidx = r"\[\s*\(\s*\*e\s*>>\s*4\s*\)\s*&\s*0xf\s*\]"
-    lowidx = r"\[\s*\*e\s*&\s*0xf\s*\]"
-    md = re.match(r"\s*default\s*:\s*result\s*\+=\s*" + _STR + r"\s*;\s*result\s*\+=\s*" + _STR + hexidx +
-                  r"\s*;\s*result\s*\+=\s*" + _STR + lowidx + r"\s*;\s*break\s*;\s*\}", tail)
-    if md:
-        prefix = c_unescape(md.group(1))
-        a1, a2 = c_unescape(md.group(2)), c_unescape(md.group(3))
-        if a1 != a2 or len(a1) != 16:
-            raise Untranslatable("default branch of switch(*e): the two digit alphabets differ or are not 16 long")
-        alphabet = a1
-    else:
-        if not re.match(r"\s*\}", tail):
-            raise Untranslatable("switch(*e) of appendEscapedString: untranslatable case or default branch: " + tail[:80].strip())
-        prefix, alphabet = [], []          # no default branch: bytes of the set without a case are dropped
-    return esc_set, table, prefix, alphabet
+def tables_from(esc_obs, unesc_obs):
+    # ---- serialiser ----
+    texts = {}
+    for c, h in esc_obs.items():
+        try:
+            b = unhx(h)
+        except ValueError:
+            raise Untranslatable(f"toString of byte {c}: not hex")
+        if len(b) < 3 or b[0] != 0x22 or b[-2:] != b'"\n':
+            raise Untranslatable(f"toString of the one-byte string {c:#x} is not a quoted text and a line feed: {h}")
+        texts[c] = list(b[1:-2])
+    esc_set = [c for c in range(1, 256) if texts[c] != [c]]
+    esc_table = [(c, texts[c]) for c in esc_set if len(texts[c]) == 2]
+    rest = [c for c in esc_set if len(texts[c]) != 2]
+    prefix, alphabet = [], []
+    if rest:
+        ln = len(texts[rest[0]])
+        if ln < 3 or any(len(texts[c]) != ln for c in rest):
+            raise Untranslatable("the longer escape texts of toString do not have one common length")
+        prefix = texts[rest[0]][:ln - 2]
+        if any(texts[c][:ln - 2] != prefix for c in rest):
+            raise Untranslatable("the longer escape texts of toString do not share one prefix")
+        alpha = {}
+        for c in rest:
+            for idx, d in ((c >> 4, texts[c][ln - 2]), (c & 15, texts[c][ln - 1])):
+                if alpha.setdefault(idx, d) != d:
+                    raise Untranslatable("the digits of the longer escape texts are not one alphabet indexed by the nibbles")
+        alphabet = [alpha.get(i, 0) for i in range(16)]     # an index never used by the code stays 0
+    # ---- tokenizer ----
+    unesc = []
+    for e in range(1, 256):
+        o = unesc_obs[e]
+        m = re.fullmatch(r"s((?:[0-9a-f][0-9a-f])+)", o)
+        if not m:
+            continue                                # error / not a string: no entry
+        b = bytes.fromhex(m.group(1))
+        if len(b) == 2 and b[1] == 0x41:
+            unesc.append((e, b[0]))
+        # anything else ([0x5c, e, 'A'] = backslash kept, ...) is no entry of the switch
+    return unesc, esc_set, esc_table, prefix, alphabet
 
 
 def lean_list(xs):
     return "[" + ", ".join(str(x) for x in xs) + "]"
 
 
-def generate(repo):
-    path = Path(repo) / "src" / "Document" / "Json.cpp"
-    if not path.exists():
-        raise Untranslatable(f"{path} not found")
-    src = strip_comments(path.read_text())
-    unesc = unescape_table(src)
-    esc_set, esc, prefix, alphabet = escape_tables(src)
-    out = ["/- GENERATED by tools/gen_json.py from src/Document/Json.cpp of the current working tree.  Do not edit. -/\n",
+def render(unesc, esc_set, esc, prefix, alphabet):
+    out = ["/- GENERATED by tools/gen_json.py by executing src/Document/Json.cpp of the current working tree\n"
+           "   (op `tables` of harness/json.cpp).  Do not edit. -/\n",
            "namespace Nstd.Generated.Json\n\n",
-           "/-- escape switch of `Json::Private::readToken`: letter after the backslash ↦ byte appended -/\n",
+           "/-- the tokenizer's escape switch: letter after the backslash ↦ byte appended -/\n",
            "def unescTable : List (Nat × Nat) :=\n  [" + ", ".join(f"({k}, {v})" for k, v in unesc) + "]\n\n",
-           "/-- the character set handed to `String::findOneOf` in `appendEscapedString` -/\n",
+           "/-- the bytes that `appendEscapedString` does not copy raw -/\n",
            "def escSet : List Nat :=\n  " + lean_list(esc_set) + "\n\n",
-           "/-- `switch(*e)` of `appendEscapedString`: byte ↦ text appended -/\n",
+           "/-- the two-byte escape texts of `appendEscapedString`: byte ↦ text appended -/\n",
            "def escTable : List (Nat × List Nat) :=\n  [" + ", ".join(f"({k}, {lean_list(v)})" for k, v in esc) + "]\n\n",
-           "/-- default branch of that switch: this prefix, then two digits of `hexAlphabet` (high, low nibble) -/\n",
+           "/-- every other byte of the set: this prefix, then two digits of `hexAlphabet` (high, low nibble) -/\n",
            "def escDefaultPrefix : List Nat := " + lean_list(prefix) + "\n\n",
            "def hexAlphabet : List Nat := " + lean_list(alphabet) + "\n\n",
            "end Nstd.Generated.Json\n"]
     return "".join(out)
 
 
-def run(repo=None):
-    """returns (ok, message); writes the generated file only when its content changed"""
+def build_probe(repo):
+    """compile harness/json.cpp against `repo` without sanitizers (used when no built harness is at hand)"""
+    build = Path(os.environ.get("NSTD_BUILD", str(VERIF / ".build")))
+    build.mkdir(parents=True, exist_ok=True)
+    exe = build / f"gen_json_probe_{os.getpid()}"
+    cmd = [os.environ.get("CXX", "g++"), "-std=gnu++11", "-O0", "-DNSTD_VERIF", f"-I{repo}/include", f"-I{VERIF}/harness",
+           str(VERIF / "harness" / "json.cpp")] + [str(Path(repo) / s) for s in PROBE_SOURCES] + ["-o", str(exe)]
+    p = subprocess.run(cmd, stdout=subprocess.PIPE, stderr=subprocess.STDOUT, text=True, errors="replace", timeout=600)
+    if p.returncode != 0:
+        raise Untranslatable("the table probe does not compile against the current sources: " + p.stdout[-400:])
+    return exe
+
+
+def run(repo=None, harness=None):
+    """returns (ok, message); writes the generated file only when its content changed.
+    `harness`: an already built harness/json.cpp executable (else a probe is compiled and removed)."""
     if repo is None:
         import common
         repo = common.REPO
+    own = None
     try:
-        text = generate(repo)
+        if harness is None:
+            own = harness = build_probe(repo)
+        text = render(*tables_from(*observe(harness)))
     except Untranslatable as ex:
         return False, f"gen_json: {ex}"
+    finally:
+        if own is not None:
+            try:
+                own.unlink()
+            except OSError:
+                pass
     OUT.parent.mkdir(parents=True, exist_ok=True)
     if not OUT.exists() or OUT.read_text() != text:
         OUT.write_text(text)
     return True, hashlib.sha1(text.encode()).hexdigest()[:12]
 
 
-def gen(ctx):
-    ok, msg = run()
-    if ok:
-        ctx.notes.append(f"translator: Nstd/Generated/JsonTables.lean regenerated from the current sources (sha1 {msg})")
-    return ok, msg
+def gen_with(harness):
+    """a `gen` hook for common.proof_stage that uses the harness built by the check"""
+    def gen(ctx):
+        ok, msg = run(harness=harness)
+        if ok:
+            ctx.notes.append("translator: Nstd/Generated/JsonTables.lean regenerated by executing the current "
+                             f"Json.cpp (sha1 {msg})")
+        return ok, msg
+    return gen
 
 
 if __name__ == "__main__":
